@@ -417,6 +417,21 @@ type Result struct {
 	Trace        []string
 }
 
+// runDeadline: how long a controlled run may take before it is given up as
+// stuck (and half of it for the goroutines that outlive the call). Wall-clock
+// time is no evidence on a busy machine: callers believe a verdict only after
+// it has been repeated with Patience.
+var runDeadline atomic.Int64
+
+func init() { runDeadline.Store(int64(6 * time.Second)) }
+
+// Patience runs fn with the deadline d in force.
+func Patience(d time.Duration, fn func()) {
+	old := runDeadline.Swap(int64(d))
+	defer runDeadline.Store(old)
+	fn()
+}
+
 // Run executes fn (which calls one go.sh entry point) under the scheduler
 // and then lets every goroutine it started run to completion.
 func Run(choices []int, keepTrace bool, fn func()) Result {
@@ -428,7 +443,7 @@ func Run(choices []int, keepTrace bool, fn func()) Result {
 		fn()
 	}()
 	var res Result
-	deadline := time.After(6 * time.Second)
+	deadline := time.After(time.Duration(runDeadline.Load()))
 wait:
 	for {
 		select {
@@ -468,7 +483,7 @@ wait:
 	}
 	s.pick()
 	s.mu.Unlock()
-	drainDeadline := time.After(3 * time.Second)
+	drainDeadline := time.After(time.Duration(runDeadline.Load()) / 2)
 	for {
 		s.mu.Lock()
 		all := s.pending == 0
